@@ -183,7 +183,7 @@ def resolve_reload(case):
 
 def plan(tier, seed):
     n = 16 if tier == 'quick' else 48
-    per = 7 if tier == 'quick' else 120
+    per = 7 if tier == 'quick' else 60
     return [{'shard': i, 'cases': per} for i in range(n)]
 
 
